@@ -277,6 +277,10 @@ def run_chunk(args):
         count(kind)
         if r.spec is not None and 'bits' in r.spec and not r.why_spec:
             count('spec:section4-identical')
+            if r.spec.get('msg'):
+                count('spec:whole-message-identical')
+            if r.spec.get('with_section2'):
+                count('spec:whole-message-with-section2-identical')
         count('compressed' if c.comp else 'uncompressed')
         count('edition-%d' % c.edition)
         count('subsets-%d' % c.n)
